@@ -304,6 +304,20 @@ def bounded(pr):
                                      'selection names none' % (sel, nt), 'replay': None})
         except (Exception, SystemExit) as e:     # noqa
             viol.append({'what': 'API selection %r: %s: %s' % (sel, type(e).__name__, e), 'replay': None})
+    # two calculations in one process, the second selection stored where the first one was (its list object recycled): each
+    # calculation titrates exactly its own selection
+    s1 = [('E', 29, ' '), ('E', 57, ' ')]
+    s2 = [('I', 19, ' '), ('I', 56, ' ')]
+    for a_, b_ in ((s1, s2), (s2, s1)):
+        ev += 1
+        try:
+            g1, g2, rec = native.recycled_address_selections('3SGB-subset', a_, b_)
+            classes.add('recycled list address: %s' % rec)
+            if (g1 != sorted(a_) or g2 != sorted(b_)) and len(viol) < 3:
+                viol.append({'what': '3SGB-subset: selection %r then selection %r (list object at the %s address) in one process: titrated '
+                                     '%r and %r' % (a_, b_, 'same' if rec else 'another', g1, g2), 'replay': None})
+        except (Exception, SystemExit) as e:     # noqa
+            viol.append({'what': 'recycled selection list: %s: %s' % (type(e).__name__, e), 'replay': None})
     # several structures in one invocation (the loop of propka.run.main: ONE options object for all files): the list still means the
     # same for the second structure
     import os
